@@ -525,6 +525,58 @@ func TestC10Child(t *testing.T) {
 		interleavings[fmt.Sprintf("%x", sha256.Sum256([]byte(strings.Join(e.ievents, ","))))] = struct{}{}
 		e.ilog.Unlock()
 	}
+	// ---- phase 2b: solve storm — many short overlapping solves of the shared systems (the
+	// window in which two solvers are inside the same stateful instruction is a few microseconds
+	// of a call; provers spend most of their time elsewhere)
+	{
+		var solves []call
+		for _, c := range calls {
+			if strings.HasPrefix(c.op, "solve-") {
+				solves = append(solves, c)
+			}
+		}
+		const G = 8
+		K := r.Pick(40, 200)
+		var wg sync.WaitGroup
+		var mism atomic.Int64
+		type bad struct {
+			c         call
+			want, got string
+		}
+		badCh := make(chan bad, G*K)
+		vcore.ChildCaseStart("solve storm "+sc.Name, nil)
+		for g := 0; g < G; g++ {
+			wg.Add(1)
+			go func(g int) {
+				defer wg.Done()
+				for k := 0; k < K; k++ {
+					c := solves[(g*7+k*3)%len(solves)]
+					c.tasks = []int{1, 2, 4, 16}[(g+k)%4]
+					out := e.exec(c)
+					// the reference was taken with another task count: solutions do not depend on it
+					want := ref[call{c.op, c.wi, refTasks(calls, c)}.String()]
+					if out != want {
+						mism.Add(1)
+						badCh <- bad{c, want, out}
+					}
+				}
+			}(g)
+		}
+		wg.Wait()
+		close(badCh)
+		r.Count("calls.concurrent", G*K)
+		r.Count("calls.storm", G*K)
+		r.Count("calls.concurrent.same-as-sequential", G*K-int(mism.Load()))
+		for b := range badCh {
+			r.Eval(fmt.Sprintf("%s|storm|%s", sc.Name, b.c), true)
+			kind := "outcome-differs-from-sequential"
+			if strings.HasPrefix(b.got, "PANIC:") {
+				kind = "panic-under-concurrency"
+			}
+			r.Violation(kind+"/"+sigScenario(sc.Name)+"/"+b.c.op, fmt.Sprintf("%s alone gave %q, in a storm of 8 concurrent solvers it gave %q", b.c, b.want, b.got),
+				map[string]any{"scenario": sc.Name, "curve": curve.String(), "call": b.c.String(), "witness": e.wits[b.c.wi].Name, "alone": b.want, "concurrent": b.got})
+		}
+	}
 	r.Count("distinct-interleavings(order of reset events across calls)", len(interleavings))
 	r.Count("yield.events", int(e.yieldN.Load()))
 
@@ -551,4 +603,14 @@ func hasGnarkFrame(s string) bool {
 		}
 	}
 	return false
+}
+
+// refTasks returns the task count with which the reference outcome of (op, witness) was taken.
+func refTasks(calls []call, c call) int {
+	for _, k := range calls {
+		if k.op == c.op && k.wi == c.wi {
+			return k.tasks
+		}
+	}
+	return c.tasks
 }
